@@ -616,6 +616,38 @@ func runPure(c *corr.Ctx, g gen) {
 		if !skip {
 			p.op(opBURL(s, sc, cb, hasCB), implBURL(s, sc, cb, hasCB))
 		}
+		// property oracle for a Content-Base given as an absolute path (some cameras): the base URL is
+		// that text on the request's scheme and host — path AND query where the header has them.
+		// (added after seeded change C20-r6-2, first caught by the correspondence only)
+		for _, rel := range []string{"/live/ch1?profile=main&token=abc/", "/a%20b/c/", g.rawPath(false) + "/"} {
+			if unmodelled(rel) {
+				continue
+			}
+			u, err := base.ParseURL(s)
+			if err != nil {
+				break
+			}
+			text := u.Scheme + "://" + u.Host + rel
+			want, err := base.ParseURL(text)
+			if err != nil || want.String() != text {
+				continue // not a URL that prints as itself: nothing to compare textually
+			}
+			res := &base.Response{Header: base.Header{"Content-Base": base.HeaderValue{rel}}}
+			var got *base.URL
+			var gerr error
+			out := guard(func() string {
+				got, gerr = gortsplib.VerifFindBaseURL(&sdp.SessionDescription{}, res, u)
+				return ""
+			})
+			if out != "" || gerr != nil || got == nil {
+				continue // panics are reported by the burl op itself
+			}
+			if gs := got.CloneWithoutCredentials().String(); gs != text {
+				c.Violate(corr.Violation{Property: prop, Clause: "control-URL resolution on the client with a relative Content-Base keeps the path and the query of the header",
+					Key: "url-contentbase-relative", Where: "client.go findBaseURL", Input: map[string]any{"url": s, "content_base": rel},
+					Detail: fmt.Sprintf("Content-Base %q on %s resolved to %q, expected %q", rel, u.Scheme+"://"+u.Host, gs, text)})
+			}
+		}
 		// findMediaByURL: announced (path, query) of s, SETUP URL built in several layouts
 		if u, err := base.ParseURL(s); err == nil {
 			ap, aq := gortsplib.VerifGetPathAndQuery(u, true)
